@@ -319,7 +319,8 @@ func c06Unique(p *ana.Prog, r *ana.Result, hr *ssa.Function) {
 	}
 	// the comparison is evaluated for every i before anything else in the body: its block is the first body block (successor of the header's continue edge)
 	header := iPhi.Block()
-	bodyFirst := false
+	// classic loop: the test's block follows the header; rotated loop (`for i := range n`): it is the header
+	bodyFirst := collision[0].From == header
 	for _, s := range header.Succs {
 		if s == collision[0].From {
 			bodyFirst = true
@@ -388,6 +389,29 @@ func c06Unique(p *ana.Prog, r *ana.Result, hr *ssa.Function) {
 			bumpIn = in
 		}
 	})
+	// a rotated loop (`for i := range n`) tests 0 < n before its first iteration: taking that
+	// test's failing edge is a (trivially complete) rescan of zero entries
+	ana.IfEdges(hr, func(iff *ssa.If, b *ssa.BasicBlock) {
+		c, _, isCmp := ana.AsCmp(iff.Cond)
+		if !isCmp {
+			return
+		}
+		zeroVsLen := func(a, l ssa.Value) bool {
+			k, ok := ana.ConstInt(a)
+			ch, root := fieldChain(l)
+			return ok && k == 0 && ch == "len" && typeNameOf(root.Type()) == "tssItem"
+		}
+		if !zeroVsLen(c.X, c.Y) && !zeroVsLen(c.Y, c.X) {
+			return
+		}
+		for si, sc := range b.Succs {
+			if sc == header {
+				initEdges[ana.Edge{From: b, Succ: si}] = true
+			} else if !inLoopOf(header, sc) {
+				initEdges[ana.Edge{From: b, Succ: si}] = true
+			}
+		}
+	})
 	s2 := &ana.Search{Fn: hr, Cut: func(e ana.Edge) bool { return initEdges[e] }, Target: isConsume}
 	if found, w := s2.Run(bumpIn); found {
 		r.Violate("C06.unique", fname, "bump-forces-full-rescan", posOf(p, bumpIn), "after bumping the receive timestamp the entries already scanned are not compared again (scan continues instead of restarting at index 0): the bumped value can equal an earlier entry", w...)
@@ -395,12 +419,37 @@ func c06Unique(p *ana.Prog, r *ana.Result, hr *ssa.Function) {
 		r.Ok("C06.unique", fname, "bump-forces-full-rescan", posOf(p, bumpIn), "after a bump the stores are reachable only through re-entering the scan with i = 0")
 	}
 	// (3) from the lookup-hit edge, consuming stores are reachable only after the scan ran to completion: every path passes the header's exit edge
+	// the scan has run to completion on the edges that leave (or bypass) the loop because the index
+	// reached the entry count: the failing edge of a test of i, i+1 or the constant 0 against tssi.len
 	exitEdges := map[ana.Edge]bool{}
-	for si, sc := range header.Succs {
-		if sc != collision[0].From {
-			exitEdges[ana.Edge{From: header, Succ: si}] = true
-		}
+	isLenLoad := func(v ssa.Value) bool {
+		ch, root := fieldChain(v)
+		return ch == "len" && typeNameOf(root.Type()) == "tssItem"
 	}
+	isIdx := func(v ssa.Value) bool {
+		if v == ssa.Value(iPhi) {
+			return true
+		}
+		if k, ok := ana.ConstInt(v); ok && k == 0 {
+			return true
+		}
+		if bo, ok := v.(*ssa.BinOp); ok && bo.Op == token.ADD && bo.X == ssa.Value(iPhi) {
+			k, _ := ana.ConstInt(bo.Y)
+			return k == 1
+		}
+		return false
+	}
+	ana.IfEdges(hr, func(iff *ssa.If, b *ssa.BasicBlock) {
+		c, _, isCmp := ana.AsCmp(iff.Cond)
+		if !isCmp || !((isIdx(c.X) && isLenLoad(c.Y)) || (isIdx(c.Y) && isLenLoad(c.X))) {
+			return
+		}
+		for si, sc := range b.Succs {
+			if sc != header && !inLoopOf(header, sc) {
+				exitEdges[ana.Edge{From: b, Succ: si}] = true
+			}
+		}
+	})
 	var lookup *ssa.Lookup
 	ana.Instrs(hr, func(in ssa.Instruction) {
 		if l, ok := in.(*ssa.Lookup); ok && l.CommaOk {
